@@ -874,7 +874,11 @@ impl<'a> VisitMut for Rw<'a> {
                     for a in c.args.iter_mut() {
                         if let Expr::Reference(r) = a {
                             if r.mutability.is_none() {
-                                if let Some(id) = path_ident(&r.expr) {
+                                let inner: &Expr = match &*r.expr {
+                                    Expr::Unary(u) if matches!(u.op, UnOp::Deref(_)) => &u.expr,
+                                    other => other,
+                                };
+                                if let Some(id) = path_ident(inner) {
                                     if self.env_by_value.contains(&id) {
                                         r.mutability = Some(Default::default());
                                         self.site("T1-refmut");
@@ -916,6 +920,16 @@ impl<'a> VisitMut for Rw<'a> {
             Expr::Macro(m) => {
                 if let Some(r) = self.rewrite_macro(&m.mac) {
                     replacement = Some(r);
+                }
+            }
+            Expr::Reference(r) if self.self_effectful => {
+                // T1: a by-value `e: Env` of an effectful function became `e: &mut Env`; `&e` -> `&*e`, `&mut e` -> `&mut *e`
+                if let Some(id) = path_ident(&r.expr) {
+                    if self.env_by_value.contains(&id) {
+                        let idt = Ident::new(&id, Span::call_site());
+                        replacement = Some(if r.mutability.is_some() { parse_quote!(&mut *#idt) } else { parse_quote!(&*#idt) });
+                        self.site("T1-byvalue");
+                    }
                 }
             }
             _ => {}
@@ -1236,7 +1250,11 @@ fn main() {
         let _ = rw.self_effectful;
         let mut block = f.block.clone();
         let empty_assoc = BTreeMap::new();
-        let mut pn = PathNorm { assoc: &empty_assoc, sites: 0 };
+        let assoc_here = match (&f.trait_name, &f.impl_type) {
+            (Some(tn), Some(ty)) => c.trait_impls.iter().find(|t| &t.trait_name == tn && &t.type_name == ty).map(|t| &t.assoc).unwrap_or(&empty_assoc),
+            _ => &empty_assoc,
+        };
+        let mut pn = PathNorm { assoc: assoc_here, sites: 0 };
         pn.visit_block_mut(&mut block);
         rw.visit_block_mut(&mut block);
         let body = pretty_block(&block);
@@ -1255,7 +1273,9 @@ fn main() {
                             if byref {
                                 ty = "&mut Env".into();
                             } else {
-                                pname = format!("mut {}", name);
+                                // by-value Env of an effectful function: thread the state by `&mut`
+                                ty = "&mut Env".into();
+                                pname = name.trim_start_matches("mut ").to_string();
                             }
                             *rw.sites.entry("T1-envmut".into()).or_insert(0) += 1;
                         }
